@@ -137,19 +137,18 @@ Plain(rs) == Refuse(rs)       \* a completion without any effect (used for OK to
 
 AuthX(f, cr) ==
   /\ ~closed /\ f \in Forms /\ cr \in Creds /\ Applicable(f, cr)
-  /\ IF auth # None /\ ~Reauth
-     THEN Refuse(AuthRefusals(f))
-     ELSE IF ~Offered(f)
-     THEN Refuse(AuthRefusals(f))
-     ELSE \/ \E i \in Identities(cr) :
-               /\ Reply(AuthOk(f))
-               /\ auth' = i /\ proof' = cr.c
-               /\ UNCHANGED <<sel, tls, stls, mechs, datav>>
-          \/ /\ ~(MustAccept(cr) /\ auth = None)
-             /\ Refuse(AuthRefusals(f))
-          \/ /\ cr.k \in DropKinds
-             /\ \E r \in {"BYE", "NONE"} : Hangup(r)
-             /\ UNCHANGED <<connv, datav>>
+  /\ \/ \* the server may hang up on these in any state
+        /\ cr.k \in DropKinds
+        /\ \E r \in {"BYE", "NONE"} : Hangup(r)
+        /\ UNCHANGED <<connv, datav>>
+     \/ IF (auth # None /\ ~Reauth) \/ ~Offered(f)
+        THEN Refuse(AuthRefusals(f))
+        ELSE \/ \E i \in Identities(cr) :
+                  /\ Reply(AuthOk(f))
+                  /\ auth' = i /\ proof' = cr.c
+                  /\ UNCHANGED <<sel, tls, stls, mechs, datav>>
+             \/ /\ ~(MustAccept(cr) /\ auth = None)
+                /\ Refuse(AuthRefusals(f))
 
 ---------------------------------------------------------------------------
 (* IMAP commands.  Instances are named COMMAND_ARGUMENTCLASS. *)
@@ -359,13 +358,13 @@ CmdClauses(c) == /\ RefusedNoEffect(c) /\ Gates(c) /\ SelectExact(c)
 
 \* C05: LOGIN / AUTHENTICATE refused once authenticated
 NoAuthOnceAuth(f, cr) ==
-  (auth # None /\ ~Reauth) => IsRefusal(last') /\ UNCHANGED <<connv, datav>>
+  (auth # None /\ ~Reauth) => (IsRefusal(last') \/ closed') /\ UNCHANGED <<connv, datav>>
 \* C09: a failed, cancelled or malformed exchange changes nothing
 FailedAuthNoEffect(f, cr) ==
   (IsRefusal(last') \/ closed' \/ ~Verified(cr)) => UNCHANGED <<connv, datav>>
 \* C09: plain-text LOGIN is refused while LOGINDISABLED is advertised
 LoginDisabled(f, cr) ==
-  (f = "LOGIN" /\ "PLAIN" \notin mechs) => IsRefusal(last') /\ auth' = auth
+  (f = "LOGIN" /\ "PLAIN" \notin mechs) => (IsRefusal(last') \/ closed') /\ auth' = auth
 \* C09: the identity assumed is the verified user or - for an admin - the
 \* requested existing user
 ActsAs(f, cr) ==
